@@ -185,10 +185,22 @@ func init() {
 					Add(sdk.NewInt64Coin("ibc/27394FB092D2ECCD56123C74F36E4C1F926001CEADA9CA97EA622B25F41E5EB2", 333)).Add(sdk.NewInt64Coin("Nund", 3)) // case matters
 			}
 		}
+		last := efundLast()
+		last.Name = "efund-last-supply-queries"
+		last.Visit = supplyQueries
+		last.VisitPure = true
+		for i := range last.Genesis.Accounts {
+			if last.Genesis.Accounts[i].Name == "O" {
+				last.Genesis.Accounts[i].Coins = last.Genesis.Accounts[i].Coins.Add(sdk.NewInt64Coin("abc", 5)).Add(sdk.NewInt64Coin("zzz", 9))
+			}
+		}
 		return &Check{ID: "C17",
 			Runs: []Run{{S: sc, Opt: map[Tier]Options{
 				Quick:    {Depth: 3, Budget: 150 * time.Second, ReplayEvery: 16},
 				Thorough: {Depth: 5, Budget: 12 * time.Minute, ReplayEvery: 32, MaxStates: 300000},
+			}}, {S: last, Opt: map[Tier]Options{
+				Quick:    {Depth: 4, Budget: 60 * time.Second, ReplayEvery: 16},
+				Thorough: {Depth: 7, Budget: 4 * time.Minute, ReplayEvery: 32, MaxStates: 100000},
 			}}},
 			Owns:        ownsAny("supplyquery"),
 			Assumptions: []string{"which HTTP route wins in the REST gateway is router configuration and not part of the state space; the gRPC query servers (incl. the *Overwrite methods that shadow the bank endpoints) are what is checked", "EnterpriseSupply has uint64 fields: not judged beyond 2^64 nund"},
